@@ -192,6 +192,14 @@ Fixpoint next_tab (tab : list (Z * Z)) (w : Z) : Z :=
    outcome of the connect attempt the underlying Open made on the (fake) network *)
 Record ostep := { o_label : label; o_outs : list out; o_state : option Z; o_conn : option bool }.
 
+(* abbreviations used by the generated case files (most steps are clock advances and requests) *)
+Definition tick_units : Z := 2 ^ 46.                                   (* 1/64 s in units of 2^-52 s *)
+Definition sK (n : Z) : ostep := Build_ostep (LTick (n * tick_units)) [] None None.   (* clock at a whole tick *)
+Definition sT (t : Z) : ostep := Build_ostep (LTick t) [] None None.
+Definition sF (sid : Z) : ostep := Build_ostep LReq [OForward sid] None None.
+Definition sX : ostep := Build_ostep LReq [OFailFast] None None.
+Definition sG (l : label) (outs : list out) (st : option Z) (conn : option bool) : ostep := Build_ostep l outs st conn.
+
 Record case := {
   c_one : Z;                   (* one second in time units *)
   c_w0 : Z; c_wmax : Z; c_odur : Z; c_t0 : Z;
